@@ -14,7 +14,7 @@ check("C05", "dsu", "model_checking",
       "DESIGN.md §4 C05")
 
 check("C01", "seg", "model_checking",
-      "Breadth-first search over the real Segtree's own node array (hook verif_nodes) with a plain-array model in lockstep. To CLOSURE (histories of any length over set/modify/ask/debug from all three constructors) for a finite non-commutative algebra (words over {0,1} with the four non-commuting functions as modifiers), a second one over Z3, a lazy item with a data-less modifier (M = ()), Sum<Z3>, Min/Max<u8>, SumAdd<Z4>, a Combinator of two NON-commutative parts and nested Combinators, for every n <= 6 (quick) / 7 (thorough). Bounded depth: the free algebra (decides 'every lawful item type', see DESIGN) n <= 9, the i64 built-ins and their Combinator nestings, elements at i64::MAX / i64::MIN, Min/Max over records compared by key only, and every algebra again with elements that carry a stale pending modifier (read back from another tree). Plus a size sweep: directed histories on the free algebra for every n <= 40 (130) and the neighbours of every power of two up to 1025 (4097).",
+      "Breadth-first search over the real Segtree's own node array (hook verif_nodes) with a plain-array model in lockstep. To CLOSURE (histories of any length over set/modify/ask/debug from all three constructors) for a finite non-commutative algebra (words over {0,1} with the four non-commuting functions as modifiers), a second one over Z3, a lazy item with a data-less modifier (M = ()), Sum<Z3>, Min/Max<u8>, SumAdd<Z4>, an arithmetic-progression item whose push gives the two children DIFFERENT modifiers (the right child's is offset by the left child's length), a Combinator of two NON-commutative parts and nested Combinators, for every n <= 6 (quick) / 7 (thorough). Bounded depth: the free algebra (decides 'every lawful item type', see DESIGN) n <= 9, the i64 built-ins and their Combinator nestings, elements at i64::MAX / i64::MIN, Min/Max over records compared by key only, and every algebra again with elements that carry a stale pending modifier (read back from another tree). Plus a size sweep: directed histories on the free algebra for every n <= 40 (130) and the neighbours of every power of two up to 1025 (4097).",
       "Trusted: the harness item algebras satisfy the monoid-action laws; the free-algebra homomorphism argument of DESIGN §4 C01. Bounded: n above the closed sizes; depth for the unbounded-value algebras.",
       "explicit-state BFS to closure over the implementation's node array, lockstep plain-array reference model",
       "DESIGN.md §4 C01")
@@ -34,22 +34,22 @@ check("C07", "rational", "exploration",
       "exhaustive small-scope input enumeration against an exact reference",
       "DESIGN.md §4 C07")
 check("C10", "geometry", "exploration",
-      "Every circle x line, ordered circle pair, ordered line pair, circle x point and line x point on an integer lattice ([-4,4]^2, radii <= 6 quick; [-6,6]^2, radii <= 8 thorough) and on its images under three rational rotations, quarter shifts and integer scalings up to |coordinate| ~ 1e3, the kind of contact decided exactly in i128; every exact tangency (circle-line, circle-circle inside/outside, border points) fed again with the radius changed by ±1e-8, ±3e-7, ±1e-5 (just outside the library's tolerance, class decided by the sign); a 'skew plane' in units of 2^-19 with 216 nearly axis-parallel lines (defining points 800 apart, 2^-7..2^-19 off axis) crossed with all lattice lines in both argument orders. Every returned point is checked against both primitives at 1e-7.",
+      "Every circle x line, ordered circle pair, ordered line pair, circle x point and line x point on an integer lattice ([-4,4]^2, radii <= 6 quick; [-6,6]^2, radii <= 8 thorough) and on its images under three rational rotations, quarter shifts and integer scalings up to |coordinate| ~ 1e3, the kind of contact decided exactly in i128; every exact tangency (circle-line, circle-circle inside/outside, border points) fed again with the radius changed by ±1e-8, ±3e-7, ±1e-5 (just outside the library's tolerance, class decided by the sign); circle pairs of extreme radius ratio (R up to 640 against r down to 0.5; thorough 2560 / 0.25) at centre distances R±r±delta for delta from 1e-3 down to 1e-8, 9 rational directions, 4 centres, both argument orders; a 'skew plane' in units of 2^-19 with 216 nearly axis-parallel lines (defining points 800 apart, 2^-7..2^-19 off axis) crossed with all lattice lines in both argument orders. Every returned point is checked against both primitives at 1e-7.",
       "Trusted: exact integer classification; f64 evaluation of the exact intersection formula for the point oracle. Bounded: rational lattices, not all real configurations.",
       "exhaustive enumeration of exact-rational configurations with integer-arithmetic oracle",
       "DESIGN.md §4 C10")
 check("C11", "gcd", "exploration",
-      "gcd/lcm for all pairs |a|,|b| <= 300 on all 12 integer types (all i8/u8 pairs) and all pairs of 156 boundary magnitudes up to the type maxima; egcd on the full cube |a|,|b|,|c| <= 40 (quick) / 80 (thorough) minus a=b=0 on i32/i64/i128 plus boundary triples up to 2^20; crt for all moduli 1..=64 (128) with all reduced residues plus boundary modulus pairs up to 2^20; thorough adds all u16 and i16 pairs.",
+      "gcd/lcm for all pairs |a|,|b| <= 300 on all 12 integer types (all i8/u8 pairs) and all pairs of 156 boundary magnitudes up to the type maxima; egcd on the full cube |a|,|b|,|c| <= 40 (quick) / 80 (thorough) minus a=b=0 on i32/i64/i128 plus boundary triples up to 2^20; crt for all moduli 1..=64 (128) with all reduced residues plus boundary modulus pairs up to 2^20; thorough adds all u16 and i16 pairs. The same enumeration runs a second time in a build with debug assertions and overflow checks.",
       "Trusted: table/Stein reference gcd, exact i128 verification of a*x+b*y=c and of the CRT answer. Out-of-domain (results that do not fit the type, lcm(0,0), egcd(0,0,c)) skipped and counted.",
-      "exhaustive small-scope input enumeration against a number-theoretic reference",
+      "exhaustive small-scope input enumeration against a number-theoretic reference, two build profiles",
       "DESIGN.md §4 C11")
 check("C12", "bitset", "model_checking",
-      "Closure BFS of the real Bitset<N> for N = 1, 2, 3 (thorough: also 10) over set/remove/flip at the word-boundary positions, clear, complement, clone, clone_from and a 'touch a bitset of another capacity' action, and for N = 64, 65, 130 over a reduced alphabet around the 4096-bit boundary, with test(i) for every i, count, iter_bits, ==, Display and Debug judged after every transition; every pass starts on threads that first used bitsets of every other capacity (ascending and descending order), recorded in the replay; a bounded sweep with set/remove/flip at EVERY index; and & | ^ and their assigning forms on all ordered pairs (same object on both sides included) of the first 1500 reached sets per N.",
+      "Closure BFS of the real Bitset<N> for N = 1, 2, 3 (thorough: also 10) over set/remove/flip at the word-boundary positions, clear, complement, clone, clone_from and a 'touch a bitset of another capacity' action, and for N = 64, 65, 130 over a reduced alphabet around the 4096-bit boundary, with test(i) for every i, count, iter_bits, ==, Display and Debug judged after every transition, and in every distinct state the iterator protocol of iter_bits (nth / skip / step_by / take / last / count / fold / size_hint from every partly consumed position around word boundaries, behaviour after exhaustion) against the same adaptors on the model's index list; every pass starts on threads that first used bitsets of every other capacity (ascending and descending order), recorded in the replay; a bounded sweep with set/remove/flip at EVERY index; and & | ^ and their assigning forms on all ordered pairs (same object on both sides included) of the first 1500 reached sets per N.",
       "Trusted: Vec<bool> model. Bounded: positions outside the boundary alphabet are reached only by the depth-bounded sweep; operand pairs capped at 1500 states per N (reported).",
       "explicit-state BFS to closure with lockstep set model, exhaustive operand pairs",
       "DESIGN.md §4 C12")
 check("C13", "sieve", "exploration",
-      "For EVERY limit N in 0..=1500 (quick) / 0..=4096 (thorough) a fresh Sieve::new(N) is compared for every n <= N (is_prime, min_prime, primes(), factorize) with trial division, plus N = 10^6 and 10^7 (thorough: 2^25) element by element, factorize included, against an independent Eratosthenes sieve; the whole check runs a second time in a build with overflow checks.",
+      "For EVERY limit N in 0..=1500 (quick) / 0..=4096 (thorough) a Sieve::new(N) built on a thread of its own — as the first construction of that thread, and inside four construction schedules on one thread (ascending, descending, largest first, alternating) so that state surviving between constructions shows — is compared for every n <= N (is_prime, min_prime, primes(), factorize) with trial division, plus N = 10^6 and 10^7 (thorough: 2^25) element by element, factorize included, against an independent Eratosthenes sieve; the whole check runs a second time in a build with overflow checks.",
       "Trusted: trial-division and Eratosthenes references (cross-checked against each other and against known prime counts).",
       "exhaustive enumeration of all limits and all arguments up to the bound",
       "DESIGN.md §4 C13")
@@ -64,7 +64,7 @@ check("C15", "iter", "exploration",
       "exhaustive input enumeration against definitional references",
       "DESIGN.md §4 C15")
 check("C18", "f80", "exploration",
-      "After the crate's f80_init() (as its header tells users): all ordered pairs of a 190-element boundary set of f64 bit patterns (zeros, subnormals, powers of two and neighbours, long carry chains, extremes, infinities, NaN) through + - * / and assigning forms, min, max, all relations, ==, partial_cmp; all members through neg, abs and the conversions; and every operation again on all ordered pairs of 300 (quick) / 2000 (thorough) full-width first-level results, compared bit for bit with a software model of x87 double-extended arithmetic. A violation is replayed on a fresh thread (from fninit) interleaved with every other f80 operation on the same operands, so that state leaking between calls (x87 register stack, control word) reproduces.",
+      "After the crate's f80_init() (as its header tells users): all ordered pairs of a 190-element boundary set of f64 bit patterns (zeros, subnormals, powers of two and neighbours, long carry chains, extremes, infinities, NaN) through + - * / and assigning forms, min, max, all relations, ==, partial_cmp; all members through neg, abs and the conversions; and every operation again on all ordered pairs of 300 (quick) / 2000 (thorough) full-width first-level results, compared bit for bit with a software model of x87 double-extended arithmetic. A 'dependent sequences' family runs every relation inside five loop shapes (run-time bounded for, unrolled, fold, while, conditional update) compiled at opt-level 3 without optimisation barriers, 21 M loops, so that a comparison the optimiser is wrongly allowed to hoist or merge shows. A violation is replayed on a fresh thread (from fninit) interleaved with every other f80 operation on the same operands, so that state leaking between calls (x87 register stack, control word) reproduces.",
       "Trusted: the software x87 model (validated against hardware on every arithmetic case it is compared on); x86-64 with 64-bit precision control (asserted at start).",
       "exhaustive pair enumeration over a boundary set and second-level chains against an exact soft-float reference",
       "DESIGN.md §4 C18")
@@ -74,7 +74,7 @@ check("C19", "tensor", "exploration",
       "exhaustive enumeration of shapes and indices",
       "DESIGN.md §4 C19")
 check("C20", "lambda", "exploration",
-      "Enumerates PROGRAMS: all macro shapes (31 capture patterns x 1..4 arguments x return type or none x both call syntaxes) with body template A, plus template D (a recursive call nested as an argument of a recursive call, and block arguments that mutate the captured state) for argument counts 1 and 4 — 744 programs in quick; thorough: templates A-D x all argument counts, 1984 programs — are generated as Rust source, compiled against /repo's macro and run against the equivalent hand-written recursive fn on a grid of arguments; a shape that fails to compile or differs in result or captured state is a violation.",
+      "Enumerates PROGRAMS: all macro shapes (31 capture patterns x 1..4 arguments x return type or none x both call syntaxes) with body template A, plus template D (a recursive call nested as an argument of a recursive call, and block arguments that mutate the captured state) for argument counts 1 and 4 and template T (arguments of reference, slice, &mut, owned and bool types in every position) — 1457 programs in quick, 5890 in thorough — are generated as Rust source, compiled against /repo's macro in two builds (without and with debug assertions / overflow checks, because cfg(debug_assertions) inside the macro is decided in the invoking crate), and run on one thread of one process against the equivalent hand-written recursive fn on a grid of arguments, the closure created once and called four times with data mutated, dropped and recreated in between; a shape that fails to compile or differs in result or captured state is a violation.",
       "Trusted: the generator emits the same body text for both versions; rustc/cargo. Bounded: at most 4 captures and 4 arguments.",
       "exhaustive enumeration of macro invocation shapes, compiled and executed",
       "DESIGN.md §4 C20")
@@ -86,12 +86,12 @@ check("C17", "c17", "model_checking",
       "DESIGN.md §4 C17")
 
 check("C03", "treap", "model_checking",
-      "Breadth-first search over states of up to 3 live treaps with at most N nodes where the EXPLORER chooses every priority rank (strictly between or tied with the live levels, also for insert_at, whose draw is located in the generator stream by a probe and the live priorities re-spaced around it), so every weak ordering of priorities = every tree shape is realised; before every non-creating action the lowest and highest live priority are stretched to 0 and u32::MAX. Every action (new, merge of every ordered pair, split_at, split_by with an id predicate AND with every value predicate that is prefix-monotone on the current sequence, insert_at, remove_at, a lazy add-1 or assign-0 attached at the root, first/last/collect/size/root, merge with empty) in every reached state against vector models; invariants in every state: collect() on a copy = model, root aggregate = fold, every node's cached size and aggregate = its own subtree. Closure for N <= 4 (quick) / 5 (thorough), all histories to depth 6 for N = 5 / 6. The same exploration runs a second time in a build with debug assertions and overflow checks.",
+      "Breadth-first search over states of up to 3 live treaps with at most N nodes where the EXPLORER chooses every priority rank (strictly between or tied with the live levels, also for insert_at: for a rank strictly between levels the live priorities are re-spaced to the two ends of the u32 range so that whatever the crate draws lands at that rank; for a rank tied with a level the draw is predicted by a per-thread copy of the crate's generator and the level moved onto it), so every weak ordering of priorities = every tree shape is realised; before every non-creating action the lowest and highest live priority are stretched to 0 and u32::MAX. Every action (new, merge of every ordered pair, split_at, split_by with an id predicate AND with every value predicate that is prefix-monotone on the current sequence, insert_at, remove_at, a lazy add-1 or assign-0 attached at the root, first/last/collect/size/root, merge with empty; nodes created by New and insert_at also with a stale pending tag) in every reached state against vector models; invariants in every state: collect() on a copy = model, root aggregate = fold, every node's cached size and aggregate = its own subtree. Closure for N <= 4 (quick) / 5 (thorough), all histories to depth 6 for N = 5 / 6. The same exploration runs a second time in a build with debug assertions and overflow checks.",
       "Trusted: the harness item is a lawful TreapItem (value in Z3, size, word aggregate, affine pending tag); vector model. Bounded: more than N live nodes / 3 live treaps.",
       "explicit-state BFS to closure over the real treap with explorer-chosen priorities, lockstep vector models",
       "DESIGN.md §4 C03")
 check("C16", "treap", "model_checking",
-      "(a) Heap order along every parent-child edge, consistently in one direction, is an invariant checked in every state of the C03 exploration (every priority ordering incl. ties and the extreme values 0 / u32::MAX, closure for N <= 4, bounded depth above). (b) Height: a directed menu of 122 deterministic histories through the REAL priority generator at up to 6 stream offsets — single-treap orders (sorted appends and front insertion to 10^6 elements, middle / one-third insertion, rotations, append/remove alternation), block concatenation with a Treap::new() per block, k treaps filled round-robin for 17 values of k (every treap probed), sliding windows, fixed-length queues, node-free operations interleaved — height probed at every doubling against 5*log2(n+1)+20. Labelled non-exhaustive.",
+      "(a) Heap order along every parent-child edge, consistently in one direction, is an invariant checked in every state of the C03 exploration (every priority ordering incl. ties and the extreme values 0 / u32::MAX, closure for N <= 4, bounded depth above). (b) Height: a directed menu of deterministic histories through the REAL priority generator (990 cases in quick), each in a process of its own at a stated stream offset and thread ordinal — single-treap orders (sorted appends and front insertion to 10^6 elements, middle / one-third insertion, rotations, append/remove alternation), block concatenation with a Treap::new() per block, k treaps filled round-robin for 17 values of k (every treap probed), sliding windows, fixed-length queues, node-free operations interleaved, regrowth after removals, and histories whose node creations are spread over threads: every thread ordinal 0..4095 of a process building a treap, chunks built on 2..32 threads and concatenated, nodes created round-robin by 2..32 live threads and merged at the back / front / middle — height probed at every doubling against 5*log2(n+1)+20. Labelled non-exhaustive.",
       "Part (b) is an enumeration of a finite menu of deterministic executions, not of all histories; the probabilistic sentence of the property cannot be established by any bounded exploration and is used only to justify that a correct implementation never trips the bound on the menu.",
       "explicit-state BFS (heap-order invariant) + directed long histories for the height bound",
       "DESIGN.md §4 C16")
@@ -102,13 +102,13 @@ check("C08", "reader", "fault_enumeration",
       "deviation-bounded exhaustive enumeration of environment answers (all chunkings / all placements of <= 2 faults) on the real Reader",
       "DESIGN.md §4 C08")
 check("C09", "writer", "model_checking",
-      "The writer's only state is the fill level of its buffer (size observed at run time: 65536). From ALL 65537 fill levels (thorough; quick: [0,64] ∪ [B-64,B] ∪ every 1021st) one or two write actions from an alphabet of 263 (every integer type at 0/±1/MIN/MAX, every rendered length 1..40, chars, &str and String of lengths around 0, 45, B and 2B, vectors, nested vectors, tuples of arity 2..8, the out!/outln! macros) followed by flush or drop; sink deviations (partial acceptance, Interrupted) enumerated up to two per execution; every value of i8/u8/i16/u16 (thorough: of u32/i32) and boundary values of the wide types rendered against to_string(). Sink bytes must equal the concatenated std renderings, nothing after flush is missing, and the real Reader reads the values back. The same enumeration runs in a second binary built with debug assertions (flush per write); both must agree.",
+      "The writer's only state is the fill level of its buffer (size observed at run time: 65536). From ALL 65537 fill levels (thorough; quick: [0,64] ∪ [B-64,B] ∪ every 1021st) one or two write actions from an alphabet of 263 (every integer type at 0/±1/MIN/MAX, every rendered length 1..40, chars, &str and String of lengths around 0, 45, B and 2B, vectors (also longer than the buffer), nested vectors, tuples of arity 2..8, the out!/outln! macros) followed by flush or drop; sink deviations (partial acceptance, Interrupted) enumerated up to two per execution; every value of i8/u8/i16/u16 (thorough: of u32/i32) and boundary values of the wide types rendered against to_string(). Sink bytes must equal the concatenated std renderings, nothing after flush is missing, and the real Reader reads the values back. The same enumeration runs in a second binary built with debug assertions (flush per write); both must agree.",
       "Trusted: std's to_string/format as the rendering reference. Sinks never return Ok(0) and no error kind other than Interrupted. Histories longer than fill + two writes are covered only through the fill level they reach (the writer has no other state).",
       "reachable-state enumeration (all fill levels x write alphabet) with bounded sink-fault enumeration, two build profiles",
       "DESIGN.md §4 C09")
 
 check("C04", "fft", "model_checking",
-      "The state of an FFT object that can influence a later call is the size of its twiddle / bit-reversal tables. ALL states 4..2^11 (quick) / 2^13 (thorough), each reached both by update_n and by a large multiply, x ALL calls of the alphabet: every length pair of 0..40 ∪ {63..65,127..129} (thorough 0..130 and around 2^8..2^10) x 12 coefficient pattern pairs x magnitudes {1, sqrt(Amax), Amax} on the envelope boundary, for f64 and f32; all vectors over {-A,-1,0,1,A} for lengths <= 4; envelope corners with long vectors up to 65536 x 65536 (transform size 2^17; thorough 2^19); all call histories of length <= 3 over an 8-call alphabet that includes a 70000-long multiply. Every call runs on a CLONE of the grown object and is judged against the schoolbook convolution (exact, i128 / parallel i64), against a fresh object, repeated on the same object, through multiply_into on a pre-filled destination, and through fft x fft -> fft_inv / fft_inv_into (also at transform size 1).",
+      "The state of an FFT object that can influence a later call is the size of its twiddle / bit-reversal tables. ALL states 4..2^11 (quick) / 2^13 (thorough), each reached both by update_n and by a large multiply, x ALL calls of the alphabet: every length pair of 0..40 ∪ {63..65,127..129} (thorough 0..130 and around 2^8..2^10) x 12 coefficient pattern pairs x magnitudes {1, sqrt(Amax), Amax} on the envelope boundary, for f64 and f32; all vectors over {-A,-1,0,1,A} for lengths <= 4; envelope corners with long vectors up to 65536 x 65536 (transform size 2^17; thorough 2^19); all call histories of length <= 3 over an 8-call alphabet that includes a 70000-long multiply. Every call runs on a CLONE of the grown object and is judged against the schoolbook convolution (exact, i128 / parallel i64), against a fresh object, repeated on the same object, through multiply_into on a pre-filled destination (also one holding values beyond 2^53), and through fft x fft -> fft_inv / fft_inv_into (also at transform size 1).",
       "Envelope read as max|coef|^2 * max(len a, len b) <= 1e12 (f64) / 1e3 (f32): inside the property's formula and inside the crate's published table also for unequal lengths (see DESIGN §4 C04 for why min(len) was a false alarm). Coefficient vectors are boundary-magnitude families and a 5-letter alphabet, not all of Z^n (exhaustive: false).",
       "all object states x all calls of a finite alphabet, exact integer reference; bounded call histories",
       "DESIGN.md §4 C04")
